@@ -41,6 +41,9 @@ fn norm_bits(x: f64) -> u64 {
     // -0.0 and 0.0 are the same number
     if x == 0.0 {
         0
+    } else if x.is_nan() {
+        // one NaN is as good as another
+        0x7ff8_0000_0000_0000
     } else {
         x.to_bits()
     }
@@ -150,6 +153,14 @@ fn group(rng: &mut Rng, assign: &[(u64, usize)], states: &[v1::State], mode: u64
                 samples.entries.push(samples_entry(states[si].clone(), vec![id]));
             }
         }
+        3 => {
+            // the SDK's own incremental builder, samples arriving in any order
+            let mut a = assign.to_vec();
+            rng.shuffle(&mut a);
+            for (id, si) in a {
+                samples.add_sample(id, states[si].clone());
+            }
+        }
         2 => {
             for (si, st) in states.iter().enumerate() {
                 let mut ids: Vec<u64> = assign.iter().filter(|(_, s)| *s == si).map(|(i, _)| *i).collect();
@@ -199,7 +210,7 @@ impl Property for C06 {
         }
     }
     fn rule(&self) -> &'static str {
-        "each case: a generated valid instance (all kinds, removed constraints, threshold constraints, fixed and dependent unused variables) and 1-8 sample ids (small / sparse / huge, unsorted) assigned to 1..n in-bound states (so several ids share a state and different states give equal values), some states omitting variables the problem does not use; submitted in three groupings (random split of equal states over entries / one entry per id / equal states merged). Observed: evaluate_samples, SampleSet::get(id) for every id and grouping, Instance::evaluate(state_id). Non-trivial = >= 2 sample ids and an instance with a constraint or non-constant objective; distinct = fingerprint of (instance, id->state assignment)."
+        "each case: a generated valid instance (all kinds, removed constraints, threshold constraints, fixed and dependent unused variables) and 1-8 sample ids (small / sparse / huge, unsorted) assigned to 1..n in-bound states (so several ids share a state and different states give equal values), some states omitting variables the problem does not use; one case in four with a state that is another state minus some unused variables; submitted in four groupings (random split of equal states over entries / one entry per id / equal states merged / built incrementally with Samples::add_sample in random order); one case in 30 with a constraint whose terms overflow to NaN or inf. Observed: evaluate_samples, SampleSet::get(id) for every id and grouping, Instance::evaluate(state_id). Non-trivial = >= 2 sample ids and an instance with a constraint or non-constant objective; distinct = fingerprint of (instance, id->state assignment)."
     }
     fn assumptions(&self) -> Vec<&'static str> {
         vec![
@@ -217,6 +228,25 @@ impl Property for C06 {
         let mut inst = g.instance;
         add_threshold_constraints(rng, &mut inst, &g.pool);
         let (hidden, dep_sources) = add_fixed_and_dependent2(rng, &mut inst, regime);
+        // one case in 30: a constraint whose finite terms overflow (c*a - c*b + 1 with c = 1e308 at a = b = 10
+        // is inf - inf = NaN, at b = -10 it is +inf): both routes must judge such a value alike
+        let mut overflow: Option<(u64, u64, f64)> = None;
+        if rng.chance(1, 30) {
+            let top = inst.decision_variables.iter().map(|v| v.id).max().unwrap_or(0);
+            let (a, b) = (top + 1, top + 2);
+            inst.decision_variables.push(dvar(a, KIND_CONTINUOUS, None));
+            inst.decision_variables.push(dvar(b, KIND_CONTINUOUS, None));
+            let cid = inst.constraints.iter().map(|c| c.id).chain(inst.removed_constraints.iter().filter_map(|r| r.constraint.as_ref().map(|c| c.id))).max().map_or(0, |m| m + 1);
+            let f = f_linear(linear(vec![(a, 1e308), (b, -1e308)], 1.0));
+            let c = constraint(cid, if rng.bool() { EQ_ZERO } else { LE_ZERO }, Some(f));
+            if rng.bool() {
+                inst.constraints.push(c);
+            } else {
+                inst.removed_constraints.push(removed(c, "overflow", Default::default()));
+            }
+            overflow = Some((a, b, if rng.bool() { 10.0 } else { -10.0 }));
+            mon.facet("constraint-value-overflows-to-nan-or-inf");
+        }
         let used = used_ids(&inst);
         // 1..8 sample ids (the property's range); deep thorough cases go up to 40
         let n = 1 + rng.usize_below(if self_tier_thorough && case_k % 8 == 5 { 40 } else { 8 });
@@ -248,7 +278,30 @@ impl Property for C06 {
                     }
                 }
             }
+            if let Some((a, b, bv)) = overflow {
+                st.entries.insert(a, 10.0);
+                st.entries.insert(b, if rng.chance(1, 4) { -bv } else { bv });
+            }
             states.push(st);
+        }
+        // one case in four: a state that is another state minus some variables the problem does not use
+        // (same values on what remains), e.g. two solvers reporting the same point with different verbosity
+        if nstates >= 2 && rng.chance(1, 4) {
+            let (i, j) = (0, 1 + rng.usize_below(nstates - 1));
+            let mut sub = states[i].clone();
+            let droppable: Vec<u64> = sub.entries.keys().cloned().filter(|k| !used.contains(k) && !dep_sources.contains(k)).collect();
+            let mut dropped = false;
+            for k in droppable {
+                if rng.bool() {
+                    sub.entries.remove(&k);
+                    dropped = true;
+                }
+            }
+            if dropped {
+                states[j] = sub;
+                any_omitted = true;
+                mon.facet("a-state-is-a-sub-state-of-another");
+            }
         }
         if any_echo {
             mon.facet("some-state-echoes-a-fixed-variable");
@@ -287,9 +340,9 @@ impl Property for C06 {
             }
         }
         let mut per_grouping: Vec<BTreeMap<u64, SolKey>> = vec![];
-        for mode in 0..3u64 {
+        for mode in 0..4u64 {
             let samples = group(rng, &assign, &states, mode);
-            let gname = ["random-split", "one-entry-per-id", "merged"][mode as usize];
+            let gname = ["random-split", "one-entry-per-id", "merged", "built-with-add_sample"][mode as usize];
             let ctx = || {
                 format!(
                     "grouping={gname}\ninstance={inst:?}\nsamples={:?}",
